@@ -140,6 +140,7 @@ type SpecFn struct {
 	Args  []string
 	Ret   string
 	Bytes bool // the result is an array of byte values (the prelude has the range axiom)
+	U32   bool // ... of 32-bit words (the prelude has the range axiom)
 }
 
 func NewContractDB() *ContractDB {
@@ -556,6 +557,10 @@ func (db *ContractDB) LoadContractFile(path, pkgPath string) error {
 			if strings.HasSuffix(sf.Ret, " bytes") {
 				sf.Ret = strings.TrimSpace(strings.TrimSuffix(sf.Ret, " bytes"))
 				sf.Bytes = true
+			}
+			if strings.HasSuffix(sf.Ret, " u32") {
+				sf.Ret = strings.TrimSpace(strings.TrimSuffix(sf.Ret, " u32"))
+				sf.U32 = true
 			}
 			for _, a := range splitTop(rest[k+1:k2], ',') {
 				if a = strings.TrimSpace(a); a != "" {
